@@ -631,3 +631,94 @@ func degenerateBodies(typ byte, tls13, tls12sig bool, body []byte) [][]byte {
 	}
 	return nil
 }
+
+// truncCase is one well-framed truncation (or extension) of one handshake message of the script.
+type truncCase struct {
+	item, msg int
+	typ       byte
+	cut       int    // body bytes kept (or body length + appended bytes for the "extend" variant)
+	variant   string // outer | nested | extend
+	frag      []byte // the new plaintext fragment of the item
+}
+
+// truncationCases enumerates, for every handshake message whose plaintext is available, the cuts of its body with the
+// handshake header length re-computed (the record length follows from serialisation). every=false skips the interior
+// of large opaque fields (keys, signatures, certificates: any offset there is structurally the same), keeping their
+// first and last two bytes. The "nested" variant also shrinks every enclosing vector to end at the cut.
+func truncationCases(items []item, tls13, tls12sig, every bool) []truncCase {
+	var out []truncCase
+	for ii, it := range items {
+		if it.Typ != 22 || it.Epoch < 0 || len(it.Frag) < 4 {
+			continue
+		}
+		msgs, fields := annotate(it.Frag, tls13, tls12sig)
+		for mi, m := range msgs {
+			body0 := m.Off + 4
+			skip := make([]bool, m.Len+1)
+			if !every {
+				for _, f := range fields {
+					if f.Kind == "opaque" && f.W > 8 && f.Off >= body0 && f.Off+f.W <= body0+m.Len {
+						for o := f.Off + 3; o < f.Off+f.W-2; o++ {
+							skip[o-body0] = true
+						}
+					}
+				}
+				// unannotated tails (messages the walker does not understand) are sampled as well
+				if m.Len > 96 {
+					covered := 0
+					for _, f := range fields {
+						if f.Off >= body0 && f.Off+f.W <= body0+m.Len && f.Off+f.W-body0 > covered {
+							covered = f.Off + f.W - body0
+						}
+					}
+					for o := covered + 3; o < m.Len-2; o++ {
+						skip[o] = true
+					}
+				}
+			}
+			build := func(body []byte) []byte {
+				f := append([]byte(nil), it.Frag[:m.Off]...)
+				f = append(f, m.Type, byte(len(body)>>16), byte(len(body)>>8), byte(len(body)))
+				f = append(f, body...)
+				return append(f, it.Frag[body0+m.Len:]...)
+			}
+			for cut := 0; cut < m.Len; cut++ {
+				if skip[cut] {
+					continue
+				}
+				body := append([]byte(nil), it.Frag[body0:body0+cut]...)
+				out = append(out, truncCase{ii, mi, m.Type, cut, "outer", build(body)})
+				// enclosing vectors: length fields whose body contains the cut
+				nested := append([]byte(nil), body...)
+				changed := false
+				for _, f := range fields {
+					if f.Kind != "len" || f.Off < body0 || f.Off+f.W > body0+cut {
+						continue
+					}
+					start := f.Off + f.W
+					if start+f.Val > body0+cut {
+						putUint(nested[f.Off-body0:f.Off-body0+f.W], body0+cut-start)
+						changed = true
+					}
+				}
+				if changed && !every {
+					// quick tier: the nested variant only where a field starts or ends
+					changed = false
+					for _, f := range fields {
+						if f.Off == body0+cut || f.Off+f.W == body0+cut {
+							changed = true
+						}
+					}
+				}
+				if changed {
+					out = append(out, truncCase{ii, mi, m.Type, cut, "nested", build(nested)})
+				}
+			}
+			for extra := 1; extra <= 2; extra++ {
+				body := append(append([]byte(nil), it.Frag[body0:body0+m.Len]...), make([]byte, extra)...)
+				out = append(out, truncCase{ii, mi, m.Type, m.Len + extra, "extend", build(body)})
+			}
+		}
+	}
+	return out
+}
